@@ -15,6 +15,7 @@ program built only from `with_local_recorder` closures, at any depth, with panic
 (`closures_only_disciplined`).  `thread_isolation` and `delivered_fields` need no discipline.
 -/
 import MetricsVerif.Proofs.LocalRec
+import MetricsVerif.Generated.SourceFacts
 
 namespace MetricsVerif.C01
 open MetricsVerif.LocalRec
@@ -382,5 +383,213 @@ example :
                        labels := .litPairs [("k", "v")] })
       = { describe := false, kind := .counter, name := "n", labels := [("k", "v")], target := some "t",
           level := some .warn, modulePath := some "m", unit := none, desc := none } := rfl
+
+/-! ### (f) the recorder callback runs in the scope of the call site (`with_recorder` only READS the thread-local) -/
+
+/-- **a macro call changes nothing but the log**: LOCAL_RECORDER of every thread, the guard table, the closure
+    frames, the global recorder and the ended borrows are what they were.  This is what allows the harness to
+    write the statements a recorder method executes from INSIDE its callback (re-entrant macro calls, scopes opened
+    and left, panics) as ordinary ops following the `emit`: `with_recorder` does nothing before or after `f` -/
+theorem emit_transparent (s : St) (t : Tid) (c : Call) :
+    (step s t (.emit c)).1.loc = s.loc ∧ (step s t (.emit c)).1.next = s.next
+    ∧ (step s t (.emit c)).1.scopes = s.scopes ∧ (step s t (.emit c)).1.guards = s.guards
+    ∧ (step s t (.emit c)).1.global = s.global ∧ (step s t (.emit c)).1.ended = s.ended :=
+  ⟨rfl, rfl, rfl, rfl, rfl, rfl⟩
+
+/-- … so after any number of macro calls (by any threads) every thread dispatches where it dispatched before -/
+theorem emits_keep_dispatch (cs : List (Tid × Call)) (s : St) (t' : Tid) :
+    dispatch (run s (cs.map fun p => (p.1, Op.emit p.2))) t' = dispatch s t' := by
+  induction cs generalizing s with
+  | nil => rfl
+  | cons p rest ih =>
+    show dispatch (run (step s p.1 (.emit p.2)).1 _) t' = _
+    rw [ih]; rfl
+
+/-- **re-entrant emission**: a macro call `d` made by the recorder method while it handles `c` (on the same
+    thread) is delivered, exactly once, to the very recorder that is handling `c` — ALL states, no discipline -/
+theorem reentrant_same_recorder (s : St) (t : Tid) (c d : Call) :
+    (step (step s t (.emit c)).1 t (.emit d)).2
+        = .emitted { tid := t, target := dispatch s t, stale := isStale s (dispatch s t), call := d }
+    ∧ (step (step s t (.emit c)).1 t (.emit d)).1.log
+        = s.log ++ [{ tid := t, target := dispatch s t, stale := isStale s (dispatch s t), call := c }]
+            ++ [{ tid := t, target := dispatch s t, stale := isStale s (dispatch s t), call := d }] :=
+  ⟨rfl, rfl⟩
+
+/-- a panic out of the recorder method (caught around the macro call) is no op at all: the state after the call
+    is the state `emit_transparent` describes, in particular the local scope is intact (in a disciplined program
+    the next macro call still reaches the innermost recorder) -/
+theorem after_callback_still_innermost_partial (g : Option RecId) (pre : List (Tid × Op)) (t : Tid) (c d : Call)
+    (h : disc (init g) pre = true) :
+    (step (step (run (init g) pre) t (.emit c)).1 t (.emit d)).2
+        = .emitted { tid := t, target := innermost (run (init g) pre) t, stale := false, call := d } := by
+  have hi := reachable_inv g pre h
+  have h1 := dispatch_eq_innermost _ t hi
+  have h2 := innermost_fresh _ t hi
+  rw [(reentrant_same_recorder _ t c d).1, h1, h2]
+
+/-! ### (g) what the type system must refuse (the harness compiles these programs: `type probe` cases) -/
+
+/-- **the recorder cannot be freed while a guard value installed from it exists** (`LocalRecorderGuard<'a>` carries
+    the borrow): `endBorrow r` is not a program then; nothing changes — ALL states -/
+theorem endBorrow_rejected_while_borrowed (s : St) (t : Tid) (r : RecId) (h : borrowed s r = true) :
+    step s t (.endBorrow r) = (s, .rejected) := by
+  simp [step, h]
+
+/-- right after `let g = set_default_local_recorder(&r)` (borrow of `r` alive) the guard borrows `r` -/
+theorem install_borrows (s : St) (t : Tid) (r : RecId) (h : s.ended.contains r = false) :
+    borrowed (step s t (.install r)).1 r = true := by
+  have hs : (step s t (.install r)).1 = (install s t r).1 := by
+    unfold step; simp only [h]; rfl
+  rw [hs]
+  simp [install, borrowed, borrowsRec]
+
+/-- **a guard cannot be dropped by a thread that does not own it** (`LocalRecorderGuard: !Send`): the op is not
+    a program; nothing changes, in particular the other thread's LOCAL_RECORDER — ALL states -/
+theorem foreign_drop_rejected (s : St) (t' : Tid) (g : GuardId) (h : findLive s.guards t' g = none) :
+    step s t' (.dropGuard g) = (s, .rejected) := by
+  unfold step
+  simp only [h]
+  split <;> rfl
+
+/-- the two probe programs of the harness, on the model -/
+theorem probes_rejected :
+    (step (step (init none) 0 (.install 1)).1 0 (.endBorrow 1)).2 = .rejected
+    ∧ (step (step (init none) 0 (.install 1)).1 1 (.dropGuard 0)).2 = .rejected
+    ∧ ((step (step (init none) 0 (.install 1)).1 1 (.dropGuard 0)).1.loc 0 = some 1) := by decide
+
+/-! ### (h) the form table covers every shape of call site -/
+
+/-- the shape of a `counter!/gauge!/histogram!` call site: macro, `target:` present, `level:` present, literal
+    name, and which group of `key_var!` arms its labels select -/
+def regShape (c : RegCall) : Kind × Bool × Bool × Bool × Nat :=
+  (c.kind, c.target.isSome, c.level.isSome,
+   (match c.name with | .lit _ => true | .expr _ => false),
+   (match c.labels with | .none => 0 | .litPairs _ => 1 | .exprPairs _ => 2 | .collection _ => 3))
+
+theorem mem_genReg (k : Kind) (p : Option String × Option Level) (nl : NameArg × LabelsArg)
+    (hk : k ∈ kinds) (hp : p ∈ prefixes k) (hnl : nl ∈ nameLabel k) :
+    Call.reg { kind := k, target := p.1, level := p.2, name := nl.1, labels := nl.2 } ∈ genReg :=
+  List.mem_flatMap.2 ⟨k, hk, List.mem_flatMap.2 ⟨p, hp, List.mem_map.2 ⟨nl, hnl, rfl⟩⟩⟩
+
+theorem kinds_complete (k : Kind) : k ∈ kinds := by cases k <;> simp [kinds]
+
+theorem prefixes_cover (k : Kind) (a b : Bool) : ∃ p ∈ prefixes k, p.1.isSome = a ∧ p.2.isSome = b := by
+  cases a <;> cases b
+  · exact ⟨(none, none), by simp [prefixes], rfl, rfl⟩
+  · exact ⟨(none, some (lvlOnly k)), by simp [prefixes], rfl, rfl⟩
+  · exact ⟨(some "tgt_x", none), by simp [prefixes], rfl, rfl⟩
+  · exact ⟨(some "tgt_y", some (lvlBoth k)), by simp [prefixes], rfl, rfl⟩
+
+/-- **every shape of register call site occurs in the compiled table**: for any call `c` whatsoever there is a
+    table entry with the same macro, the same prefix arm, the same kind of name and the same kind of labels — so
+    each arm of `counter!/gauge!/histogram!` is compared, with labels, against `register_row` on every run -/
+theorem forms_cover_every_shape (c : RegCall) : ∃ c', Call.reg c' ∈ forms ∧ regShape c' = regShape c := by
+  obtain ⟨p, hp, hp1, hp2⟩ := prefixes_cover c.kind c.target.isSome c.level.isSome
+  have hnl : ∃ nl ∈ nameLabel c.kind,
+      (match nl.1 with | .lit _ => true | .expr _ => false) = (match c.name with | .lit _ => true | .expr _ => false)
+      ∧ (match nl.2 with | .none => 0 | .litPairs _ => 1 | .exprPairs _ => 2 | .collection _ => 3)
+        = (match c.labels with | .none => 0 | .litPairs _ => 1 | .exprPairs _ => 2 | .collection _ => 3) := by
+    cases c.name <;> cases c.labels <;>
+      first
+      | exact ⟨(.lit (litName c.kind), .none), by simp [nameLabel, labelShapes], rfl, rfl⟩
+      | exact ⟨(.expr (compName c.kind), .none), by simp [nameLabel, labelShapes], rfl, rfl⟩
+      | exact ⟨(.lit (litName c.kind), .litPairs [("uvw", "xyz"), ("a", "b")]), by simp [nameLabel, labelShapes], rfl, rfl⟩
+      | exact ⟨(.expr (compName c.kind), .litPairs [("uvw", "xyz"), ("a", "b")]), by simp [nameLabel, labelShapes], rfl, rfl⟩
+      | exact ⟨(.lit (litName c.kind), .exprPairs [("dyn", "xyz!"), ("ck", "cv")]), by simp [nameLabel, labelShapes], rfl, rfl⟩
+      | exact ⟨(.expr (compName c.kind), .exprPairs [("dyn", "xyz!"), ("ck", "cv")]), by simp [nameLabel, labelShapes], rfl, rfl⟩
+      | exact ⟨(.lit (litName c.kind), .collection [("uvw", "xyz!"), ("k2", "v2")]), by simp [nameLabel, labelShapes], rfl, rfl⟩
+      | exact ⟨(.expr (compName c.kind), .collection [("uvw", "xyz!"), ("k2", "v2")]), by simp [nameLabel, labelShapes], rfl, rfl⟩
+  obtain ⟨nl, hnlm, hn1, hn2⟩ := hnl
+  refine ⟨{ kind := c.kind, target := p.1, level := p.2, name := nl.1, labels := nl.2 }, ?_, ?_⟩
+  · have := mem_genReg c.kind p nl (kinds_complete _) hp hnlm
+    unfold forms
+    simp only [List.mem_append]
+    exact Or.inl (Or.inl (Or.inr this))
+  · simp only [regShape, hp1, hp2, hn1, hn2]
+
+/-- every describe macro occurs without unit and with each of the 17 units, with a literal and a computed name -/
+theorem forms_cover_describe (k : Kind) (u : Option String) (hu : u = none ∨ ∃ x ∈ unitNames, u = some x) :
+    Call.desc { kind := k, name := .lit (litName k), unit := u, desc := "d lit" } ∈ forms
+    ∧ Call.desc { kind := k, name := .expr (compName k), unit := u, desc := "computed desc 7" } ∈ forms := by
+  have hd : ∀ c ∈ descPair k u, c ∈ genDesc := by
+    intro c hc
+    refine List.mem_flatMap.2 ⟨k, kinds_complete k, ?_⟩
+    rw [List.mem_append]
+    rcases hu with hu | ⟨x, hx, hu⟩
+    · left; rw [← hu]; exact hc
+    · right; exact List.mem_flatMap.2 ⟨x, hx, by rw [← hu]; exact hc⟩
+  have hf : ∀ c ∈ genDesc, c ∈ forms := by
+    intro c hc; unfold forms; simp only [List.mem_append]; exact Or.inl (Or.inr hc)
+  exact ⟨hf _ (hd _ (by simp [descPair])), hf _ (hd _ (by simp [descPair]))⟩
+
+/-! ### (i) facts of the source no run can observe (tools/extract.py → Generated/SourceFacts.lean) -/
+
+/-- `with_recorder` only READS the thread-local (`get`; no `take`/`set`/`replace` around the callback), and tries
+    local, then global, then the no-op recorder — the shape `dispatch`/`fallback` and `emit_transparent` model -/
+theorem src_with_recorder_shape :
+    Generated.localrec_with_recorder_local_calls = ["get"]
+    ∧ Generated.localrec_with_recorder_order = ["local", "global", "noop"]
+    ∧ Generated.localrec_thread_local_decl
+        = "static LOCAL_RECORDER: Cell<Option<NonNull<dyn Recorder>>> = Cell::new(None)" := ⟨rfl, rfl, rfl⟩
+
+/-- `LocalRecorderGuard::new` = `replace(Some(r))` keeping the old value, `Drop` = `replace(saved)`;
+    `with_local_recorder` binds the guard to a NAMED local for the whole call of `f` — `install`/`dropG`/`enter`/`exit` -/
+theorem src_guard_save_restore :
+    Generated.localrec_guard_new_calls = ["replace(Some(recorder_ptr))"]
+    ∧ Generated.localrec_guard_drop_calls = ["replace(self.prev_recorder.take())"]
+    ∧ Generated.localrec_with_local_body = "{ let _local = LocalRecorderGuard::new(recorder); f() }" := ⟨rfl, rfl, rfl⟩
+
+/-- the guard type carries the recorder's borrow and is neither `Send` nor `Sync` by hand: what `Out.rejected`
+    stands for (`endBorrow_rejected_while_borrowed`, `foreign_drop_rejected`; compiled by the type probes) -/
+theorem src_guard_carries_borrow :
+    Generated.localrec_guard_phantom = "PhantomData<&'a dyn Recorder>"
+    ∧ Generated.localrec_guard_new_sig = "recorder: &'a (dyn Recorder + 'a)"
+    ∧ Generated.localrec_set_default_sig
+        = "pub fn set_default_local_recorder(recorder: &dyn Recorder) -> LocalRecorderGuard"
+    ∧ Generated.localrec_with_local_sig
+        = "pub fn with_local_recorder<T>(recorder: &dyn Recorder, f: impl FnOnce() -> T) -> T"
+    ∧ Generated.localrec_guard_unsafe_impls = [] := ⟨rfl, rfl, rfl, rfl, rfl⟩
+
+/-- body of a forwarding method of `impl_recorder!` -/
+def fwdBody (m args : String) : String := "{ std::ops::Deref::deref(self)." ++ m ++ "(" ++ args ++ ") }"
+
+/-- the blanket impls for `&T`, `&mut T`, `Box<T>`, `Arc<T>` forward each of the six methods, once, to its
+    namesake with the same arguments: a recorder installed through a wrapper is the recorder (the model has no
+    wrapper; the harness installs its doubles through every one of them) -/
+theorem src_blanket_forwards_to_namesake :
+    Generated.localrec_blanket_forwarding
+      = [("describe_counter", fwdBody "describe_counter" "key, unit, description"),
+         ("describe_gauge", fwdBody "describe_gauge" "key, unit, description"),
+         ("describe_histogram", fwdBody "describe_histogram" "key, unit, description"),
+         ("register_counter", fwdBody "register_counter" "key, metadata"),
+         ("register_gauge", fwdBody "register_gauge" "key, metadata"),
+         ("register_histogram", fwdBody "register_histogram" "key, metadata")]
+    ∧ Generated.localrec_blanket_types = ["&T", "&mut T", "std::boxed::Box<T>", "std::sync::Arc<T>"] := by decide
+
+/-- what every forwarding arm must pass on: the name and ALL label arguments -/
+def fwdArgs : String := "$name $(, $label_key $(=> $label_value)?)*"
+
+/-- the arms of one macro: `target:`-only ⇒ level INFO, `level:`-only ⇒ target `module_path!()`, plain ⇒ both
+    defaults (`expandReg`), each passing on name and labels; the full arm hands name+labels to `key_var!`, target and
+    level to `metadata_var!`, and calls the macro's own `register_*` -/
+def armsOf (m : String) : String × List String :=
+  (m, ["target: $target, level: $crate::Level::INFO, " ++ fwdArgs,
+       "target: ::std::module_path!(), level: $level, " ++ fwdArgs,
+       "target: ::std::module_path!(), level: $crate::Level::INFO, " ++ fwdArgs,
+       fwdArgs, "$target, $level", "register_" ++ m ++ "(&metric_key, metadata)"])
+
+theorem src_macro_arms :
+    Generated.localrec_macro_arms = [armsOf "counter", armsOf "gauge", armsOf "histogram"]
+    ∧ Generated.localrec_metadata_var_new_args = "$target, $level, ::core::option::Option::Some(::std::module_path!())," := by
+  decide
+
+/-- a callback that emits, one that panics, inside a depth-2 scope: the log shows both deliveries at the inner
+    recorder and the scope intact afterwards -/
+example :
+    (run (init (some 900)) [(0, .enter 1), (0, .enter 2), (0, .emit c0), (0, .emit c0), (0, .exit true), (0, .emit c0),
+        (0, .exit false), (0, .emit c0)]).log.map (fun e => (e.target, e.stale))
+      = [(.loc 2, false), (.loc 2, false), (.loc 1, false), (.glob 900, false)] := by decide
+
+example : forms.length = 239 := rfl
 
 end MetricsVerif.C01
